@@ -211,19 +211,24 @@ class mapper(object):
         if endian == -1:
             res.reverse()
         P = []
-        cur = 0
+        # cur is the byte offset (from a) of the current part: parts have been
+        # reversed in big-endian so we walk offsets downward from l in this case.
+        cur = l if endian == -1 else 0
         for p in res:
             plen = len(p)
+            if endian == -1:
+                cur -= plen
             if isinstance(p, bytes):
                 p = cst(Bits(p[::endian], bitorder=1).int(), plen * 8)
             elif isinstance(p, exp):
                 if p._is_def == 0:
                     # p is "bottom":
-                    p = mem(a, p.size, disp=cur)
+                    p = mem(a, p.size, disp=cur, endian=endian)
                 elif p.etype==et_ext and p._subrefs.get("mmio_r",None):
                     p = p.stub(self,mode="r")
             P.append(p)
-            cur += plen
+            if endian != -1:
+                cur += plen
         return composer(P)
 
     def _Mem_write(self, a, v, endian=1):
